@@ -200,3 +200,8 @@ func c01KindTerms(example string) []string {
 	return nil
 }
 
+
+// well-typed but unusable literal arguments (C07, C16): a string that is no regular expression,
+// no unit and no type name; integers at a boundary
+var c07OddStr = []string{"", "'['", "'*'", "'a{2,1}'", "''"}
+var c07OddInt = []string{"", "-1", "2147483647", "0", "-1"}
